@@ -135,7 +135,7 @@ func C20(tier string) int {
 			gen(nil)
 		}
 		totalPages += len(seqsI)
-		res.Rule = fmt.Sprintf("ordered-collection pages whose items are every sequence of length 0..%d over {IRI a, IRI b, embedded Note a, embedded Note b, embedded Create a, embedded value without id} (%d pages), and every sequence of length 0..3 over 14 items whose ids differ in exactly one URL component (host, scheme, fragment, query, port, trailing slash, case of path / query / fragment, sub-path, an empty query; IRI and embedded), and 24 long pages (8 / 16 / 30 items in 8 duplicate patterns), served through GetInbox and GetOutbox; every pair of {GetInbox, GetOutbox, handler x 2 values} handled concurrently on one Actor under the cooperative scheduler (all interleavings of seam calls and clock reads): each response carries the Digest of its own bytes and equals the one served alone; handler values of every vocabulary type, Tombstone, missing value, Get error; %d clock instants at second/day/year boundaries in 5 time zones; a third of the pages and half of the handler values served on a ResponseWriter that already carries stale Content-Type / Date / Digest values (each must end with exactly one, correct value); every sequence of 2-3 (thorough 4) read requests over 8 request kinds on ONE application and one handler value, each answered exactly as when served alone; oracle: body JSON-equal to the supplied value with (inbox) later duplicates of an id removed and order kept, Content-Type constant, Date = clock in RFC 7231 GMT form, Digest = base64 SHA-256 of the bytes written, 410 for a Tombstone, ErrNotFound with nothing written for a missing value; non-trivial = pages with at least one duplicate id or a handler value", maxLen, len(seqsI), len(clocks))
+		res.Rule = fmt.Sprintf("ordered-collection pages whose items are every sequence of length 0..%d over {IRI a, IRI b, embedded Note a, embedded Note b, embedded Create a, embedded value without id} (%d pages), and every sequence of length 0..3 over 14 items whose ids differ in exactly one URL component (host, scheme, fragment, query, port, trailing slash, case of path / query / fragment, sub-path, an empty query; IRI and embedded), and 24 long pages (8 / 16 / 30 items in 8 duplicate patterns), served through GetInbox and GetOutbox; every pair of {GetInbox, GetOutbox, handler x 2 values} handled concurrently on one Actor under the cooperative scheduler (all interleavings of seam calls and clock reads): each response carries the Digest of its own bytes and equals the one served alone; handler values of every vocabulary type (hidden recipients embedded / in lists / nested, and 4, 6, 9 and 17 object levels deep), Tombstone, missing value, Get error; %d clock instants at second/day/year boundaries in 5 time zones; a third of the pages and half of the handler values served on a ResponseWriter that already carries stale Content-Type / Date / Digest values (each must end with exactly one, correct value); every sequence of 2-3 (thorough 4) read requests over 8 request kinds on ONE application and one handler value, each answered exactly as when served alone; oracle: body JSON-equal to the supplied value with (inbox) later duplicates of an id removed and order kept, Content-Type constant, Date = clock in RFC 7231 GMT form, Digest = base64 SHA-256 of the bytes written, 410 for a Tombstone, ErrNotFound with nothing written for a missing value; non-trivial = pages with at least one duplicate id or a handler value", maxLen, len(seqsI), len(clocks))
 		var mu sync.Mutex
 		chunk := 400
 		parallel((len(seqsI)+chunk-1)/chunk, func(ci int) {
@@ -487,6 +487,14 @@ func C20(tier string) int {
 			"iri-then-embedded": L{RNote, hiddenNote("https://l.example/n/e1")},
 			"embedded-then-iri": L{hiddenNote("https://l.example/n/e1"), RNote},
 			"nested":            M{"type": "Create", "id": "https://l.example/n/c1", "bcc": Erin, "object": L{RNote, hiddenNote("https://l.example/n/e2")}},
+		}
+		// deep chains: the hidden recipients sit 4, 6, 9 and 17 'object' levels below the served value
+		for _, depth := range []int{4, 6, 9, 17} {
+			var inner interface{} = hiddenNote("https://l.example/n/deepest")
+			for lvl := depth - 1; lvl >= 1; lvl-- {
+				inner = M{"type": []string{"Create", "Announce", "Like"}[lvl%3], "id": fmt.Sprintf("https://l.example/n/lvl%d", lvl), "bcc": Erin, "object": inner}
+			}
+			shapes[fmt.Sprintf("deep-%d", depth)] = inner
 		}
 		for sn, sv := range shapes {
 			id := "https://l.example/v/hidden"
